@@ -5,13 +5,13 @@ Ops
   eliminate  {'op':'eliminate','val':<validator cfg>, 'votes':[[<Obj>,'n'],..]} -> [[<Obj>,'n'],..] | {'err': class}
 
 Obj encoding (the grammar of Python values as the validators see them)
-  {'s':i} str | {'c':kind,'id':i} candidate object | {'n':'p/q'[, 'F':1]} int / Fraction | None |
+  {'s':i} str | {'c':kind,'id':i} candidate object | {'n':'p/q'[, 'F'|'D'|'fl'|'bo':1]} int / Fraction / Decimal / float / bool | None |
   {'o':i} other hashable object | {'t':[..]} tuple | {'l':[..]} list | {'f':[..]} frozenset | {'m':[..]} set |
   {'d':[[keys],[values]]} dict
 Validator cfg
   {'vt':'simple','nom':N} | {'vt':'approval','count':B,'nom':N} | {'vt':'ranked','total':B,'rank':BM|None,'nom':N} |
   {'vt':'enum','n':B,'sum':BM,'nom':N,'levels':[Obj]} | {'vt':'range','n':B,'sum':BM,'nom':N,'range':B}
-  B = [lo,hi] (None or 'p/q'); BM = {'all':B} | {'by':[[key,B],..]}; N = {'k':'basic'|'person'|'party', flags}
+  B = [lo,hi] (None or 'p/q' or 'T:p/q' with T in F,D,f,b = handed over as Fraction / Decimal / float / bool); BM = {'all':B} | {'by':[[key,B],..]}; N = {'k':'basic'|'person'|'party', flags}
 
 The real Python objects are built from the encoding (`Pool.build`); the line sent to the Lean model is re-encoded
 from the real objects (`Pool.encode`) so that sets travel in the iteration order the validator will see.
@@ -53,6 +53,20 @@ REQUIRED_COUNTERS = [
     'elim_some_removed', 'elim_all_kept', 'via_checker_objects', 'via_plain_dicts', 'op:shape',
     'score_decimal_on_sum_bound', 'score_fraction_on_sum_bound', 'score_bigint_sum_bound', 'score_huge_int',
     'score_sum_one_off', 'elim_exact_sum', 'empty_name_candidate',
+    # generator audit (harness/GENERATOR_CHECKLIST.md)
+    'bound_zero', 'bound_negative', 'bound_fraction', 'bound_decimal', 'bound_float', 'bound_float_nondyadic', 'bound_bool',
+    'dict_key_zero', 'dict_key_beyond_ballot', 'dict_key_far_beyond',
+    'nomcfg:basic:-:True', 'nomcfg:basic:-:False', 'nomcfg:person:True:True', 'nomcfg:person:True:False',
+    'nomcfg:person:False:True', 'nomcfg:person:False:False', 'nomcfg:party:True:True', 'nomcfg:party:True:False',
+    'nomcfg:party:False:True', 'nomcfg:party:False:False', 'nom_flags_flipped', 'default_nominator',
+    'falsy_name_object', 'coalition_one_member', 'coalition_nested_or_empty', 'str_party_candidacy', 'equal_looking_objects',
+    'same_object_twice', 'name_clash_str_object',
+    'unhashable_item', 'unhashable_ballot', 'unhashable_inner_item',
+    'shared_rank_3plus', 'empty_shared_rank', 'rank_as_list', 'rank_as_set', 'rank_as_tuple', 'rank_as_dict',
+    'score_dup_equal_score', 'score_dup_diff_score', 'hash_alike_scores',
+    'score_decimal_7plus', 'score_zero_fraction', 'score_zero_decimal', 'score_float', 'score_bool',
+    'op:validate_seq', 'seq_valid_after_invalid', 'other_validator_first', 'elim_mixed_kinds',
+    'ballot_len_0', 'ballot_len_1', 'ballot_len_50plus',
 ]
 RULE = ('ballots from the grammar (str, Person with/without party, PoliticalParty, Coalition, blank votes, int, Fraction, None, '
         'other object, tuple, list, frozenset, set, dict, nested to depth 3) in a mostly-valid stream (valid ballot for the '
@@ -151,9 +165,9 @@ class Pool:
             f = Fraction(e['n'])
             if e.get('D') and to_decimal(f) is not None:
                 return to_decimal(f)
-            if e.get('f') and Fraction(float(f)) == f:
+            if e.get('fl') and Fraction(float(f)) == f:
                 return float(f)                     # only doubles that carry the value exactly
-            if e.get('b') and f in (0, 1):
+            if e.get('bo') and f in (0, 1):
                 return bool(f)
             return int(f) if f.denominator == 1 and not e.get('F') else f
         if 'o' in e:
@@ -217,7 +231,7 @@ def canon_obj(e):
             return {k: [xs[s] for s in sorted(xs)]}
     if 'd' in e:
         return {'d': [[canon_obj(x) for x in e['d'][0]], [canon_obj(x) for x in e['d'][1]]]}
-    return {k: v for k, v in e.items() if k not in ('F', 'D', 'f', 'b')}
+    return {k: v for k, v in e.items() if k not in ('F', 'D', 'fl', 'bo')}
 
 
 def ckey(e):
@@ -663,12 +677,12 @@ def Cd(kind, i=0):
     return {'c': kind, 'id': i}
 
 
-def N(x, F=False, D=False):
+def N(x, F=False, D=False, f=False, b=False):
+    """a number; flags: handed over as Fraction / Decimal / float (exact doubles only) / bool"""
     e = {'n': num_str(Fraction(x))}
-    if F:
-        e['F'] = 1
-    if D:
-        e['D'] = 1
+    for k, on in (('F', F), ('D', D), ('fl', f), ('bo', b)):
+        if on:
+            e[k] = 1
     return e
 
 
@@ -676,14 +690,63 @@ NOMS = ([{'k': 'basic', 'blank': b} for b in (True, False)]
         + [{'k': 'person', 'indep': i, 'blank': b} for i in (True, False) for b in (True, False)]
         + [{'k': 'party', 'coal': c, 'blank': b} for c in (True, False) for b in (True, False)])
 
-ALL_CANDS = [S(i) for i in range(6)] + [Cd(k, i) for k in KINDS for i in range(3)]
+ALL_CANDS = [S(i) for i in range(6)] + [Cd(k, i) for k in KINDS for i in range(4)] + [Cd('coalition', 4)]
 NON_CANDS = [N(1), N(0), N(Fraction(1, 2)), None, {'o': 0}, {'t': [S(0), S(1)]}, {'t': []}, {'f': [S(0)]}, {'f': []},
              {'t': [S(0), N(1)]}, {'f': [{'t': [S(0), N(1)]}]}]
 UNHASHABLE = [{'l': [S(0)]}, {'l': []}, {'m': [S(0), S(1)]}, {'d': [[S(0)], [N(1)]]}, {'t': [{'l': [S(1)]}]}]
 
 
 def gen_nom(rng):
-    return rng.choice(NOMS)
+    nom = dict(rng.choice(NOMS))
+    r = rng.random()
+    if r < 0.15:
+        nom['flip'] = True                   # flags set after construction
+    elif r < 0.45 and nom == {'k': 'basic', 'blank': True}:
+        nom['default'] = True                # the validator is built without a nominator argument
+    return nom
+
+
+def same_nom(a, b):
+    keys = ('k', 'blank', 'indep', 'coal')
+    return all(a.get(k) == b.get(k) for k in keys)
+
+
+def retype_num(rng, x, shift=None):
+    """the same bound handed over as another Python type (F Fraction, D Decimal, f float, b bool); `shift`: a non-dyadic
+    float a little below (lower bound) / above (upper bound) the value, which leaves integer-valued quantities unaffected"""
+    if x is None or x[1:2] == ':':
+        return x
+    f = Fraction(x)
+    opts = ['F']
+    if to_decimal(f) is not None:
+        opts.append('D')
+    if Fraction(float(f)) == f:
+        opts.append('f')
+    if f in (0, 1):
+        opts += ['b', 'b']
+    if shift is not None and abs(f) < 10 ** 6:
+        opts += ['shift']
+    t = rng.choice(opts)
+    if t == 'shift':
+        g = Fraction(float(f) + shift)
+        return 'f:' + num_str(g)
+    return f'{t}:{num_str(f)}'
+
+
+def retype_bounds(rng, val):
+    val = dict(val)
+    for k in ('count', 'total', 'n', 'range'):
+        if k in val and rng.random() < 0.5:
+            cnt = k != 'range'
+            val[k] = [retype_num(rng, val[k][0], -0.6 if cnt else None), retype_num(rng, val[k][1], 0.4 if cnt else None)]
+    for k in ('rank', 'sum'):
+        bm = val.get(k)
+        if bm is not None and rng.random() < 0.5:
+            cnt = k == 'rank'
+            def rt(b):
+                return [retype_num(rng, b[0], -0.6 if cnt else None), retype_num(rng, b[1], 0.4 if cnt else None)]
+            val[k] = {'all': rt(bm['all'])} if 'all' in bm else {'by': [[kk, rt(b)] for kk, b in bm['by']]}
+    return val
 
 
 def admitted(nom):
@@ -806,7 +869,7 @@ def gen_approval(rng, tags, hashable=False, nom=None):
 def gen_ranked(rng, tags, hashable=False, nom=None):
     nom = nom or gen_nom(rng)
     nranks = rng.choice([0, 1, 2, 2, 3, 3, 4, 5])
-    sizes = [rng.choice([1, 1, 1, 1, 2, 2, 3, 0]) for _ in range(nranks)]
+    sizes = [rng.choice([1, 1, 1, 1, 2, 2, 3, 0, 4]) for _ in range(nranks)]
     pool = pick_cands(rng, nom, 20)
     ranks, used = [], 0
     for sz in sizes:
@@ -837,8 +900,10 @@ def gen_ranked(rng, tags, hashable=False, nom=None):
             sub = []
             by.append([i + 1, rel_bounds(rng, rsizes[i] if i < len(rsizes) else 1, sub)])
             tags += sub
-        if rng.random() < 0.2:
+        if rng.random() < 0.3:
             by.append([0, ['5', '5']])               # key that is no rank: never consulted
+        if rng.random() < 0.3:
+            by.append([rng.choice([len(ranks) + 2, 9, 60]), ['7', '7']])     # rank beyond the ballot: never consulted
         rank = {'by': by}
     if rng.random() < 0.45 and ranks:
         m = rng.random()
@@ -885,7 +950,7 @@ def gen_ranked(rng, tags, hashable=False, nom=None):
     return {'vt': 'ranked', 'total': total, 'rank': rank, 'nom': nom}, {'t': ranks}
 
 
-LEVEL_SETS = [[N(0), N(1), N(2), N(3)], [N(-1), N(0), N(1)], [S(8), S(9)], [S(6), S(7), N(1)], [N(Fraction(1, 2)), N(1), N(5)],
+LEVEL_SETS = [[S(0), S(1), N(1)], [N(0), N(1), N(2), N(3)], [N(-1), N(0), N(1)], [S(8), S(9)], [S(6), S(7), N(1)], [N(Fraction(1, 2)), N(1), N(5)],
               [None, N(1)], [], [{'t': []}, {'f': [S(1), S(0)]}, N(1), Cd('party', 0)]]
 
 
@@ -893,7 +958,7 @@ def gen_score(rng, tags, vt, hashable=False, nom=None):
     nom = nom or gen_nom(rng)
     n = rng.choice([0, 1, 1, 2, 2, 3, 3, 4])
     cands = pick_cands(rng, nom, n)
-    fk = rng.choice(['F', 'D'])            # one non-int numeric type per ballot (Decimal + Fraction cannot be added)
+    fk = rng.choice(['F', 'D', 'f'])       # one non-int numeric type per ballot (Decimal / Fraction / float do not add exactly)
     if vt == 'enum':
         levels = rng.choice(LEVEL_SETS)
         scores = [rng.choice(levels) if levels else N(1) for _ in cands]
@@ -902,6 +967,13 @@ def gen_score(rng, tags, vt, hashable=False, nom=None):
         kind = rng.random()
         scores = [N(rng.randint(-2, 6), **{fk: rng.random() < 0.2}) if kind < 0.7 else N(Fraction(rng.randint(-4, 12), 2), **{fk: True})
                   for _ in cands]
+    if vt == 'range' and len(scores) >= 2 and rng.random() < 0.06:
+        scores[0], scores[1] = N(-1), N(-2)            # hash(-1) == hash(-2)
+    if vt == 'range' and len(scores) >= 2 and rng.random() < 0.04:
+        scores[0], scores[1] = N(5), N(5 + 2 ** 61 - 1)   # equal hashes modulo 2**61 - 1
+    if rng.random() < 0.08:
+        scores = [N(Fraction(x['n']), b=True) if (is_num(x) and Fraction(x['n']) in (0, 1) and not x.get('F') and not x.get('D') and not x.get('fl'))
+                  else x for x in scores]                 # bool scores
     items = [{'t': [c, s]} for c, s in zip(cands, scores)]
     if not items:
         tags.append('empty_ballot')
@@ -917,7 +989,7 @@ def gen_score(rng, tags, vt, hashable=False, nom=None):
     else:
         tags.append('sum_dict')
         by = [[len(items), rel_bounds(rng, total, sub, integer=False)]] if rng.random() < 0.7 else []
-        by += [[k, [None, '0']] for k in rng.sample(range(6), 2) if k != len(items)]
+        by += [[k, [None, '0']] for k in rng.sample([0, 1, 2, 3, 4, 5, 9, 60], 2) if k != len(items)]
         sm = {'by': by}
     if sub and numeric:
         tags.append('sum_boundary')
@@ -940,9 +1012,18 @@ def gen_score(rng, tags, vt, hashable=False, nom=None):
         m = rng.random()
         i = rng.randrange(len(items))
         if m < 0.15:
-            other = N(7) if vt == 'range' else rng.choice([N(7), S(10)])
-            items.append({'t': [cands[i], other]})     # the same candidate scored twice
-            tags.append('duplicate')
+            # the same candidate scored twice: with another score (a duplicate), with the identical score (the two
+            # pairs are one member of the frozenset: no duplicate), or with an equal score of another numeric type
+            r2 = rng.random()
+            if r2 < 0.5:
+                other = N(7) if vt == 'range' else rng.choice([N(7), S(10)])
+                if ckey(other) != ckey(scores[i]):
+                    tags.append('duplicate')
+            elif r2 < 0.75 or not is_num(scores[i]):
+                other = scores[i]
+            else:
+                other = N(Fraction(scores[i]['n']), F=not scores[i].get('F'))
+            items.append({'t': [cands[i], other]})
         elif m < 0.3:
             items[i] = {'t': [rng.choice(not_admitted(nom)), scores[i]]}
             tags.append('not_admitted')
@@ -1095,6 +1176,79 @@ def directed(rng):
                           [{'f': [{'t': [S(0), N(fifth, D=True)]}, {'t': [S(1), N(fifth, D=True)]}]}, '2']],
                 '_tags': ['elim_exact_sum', 'exact_sum', 'score_decimal_on_sum_bound']})
     out.append(mk_case({'vt': 'ranked', 'total': [None, None], 'rank': None, 'nom': basic}, {'t': [S(4), S(0)]}, ['empty_name_candidate']))
+    # checklist dimensions: bound types, nominator options, object variants, unhashable positions, ballot shapes
+    for nomd in NOMS:
+        for flip in (False, True):
+            nd = dict(nomd, flip=True) if flip else dict(nomd)
+            out.append(mk_case({'vt': 'approval', 'count': [None, None], 'nom': nd},
+                               {'f': [Cd('party', 0), Cd('coalition', 1), Cd('blank', 0), Cd('person_indep', 0), Cd('person_party', 1)][:rng.randint(1, 5)]},
+                               ['nominator_matrix']))
+            for c in (Cd('coalition', 0), Cd('blank', 1), Cd('person_indep', 2), Cd('party', 2), Cd('person_party', 3), S(4)):
+                out.append(mk_case({'vt': 'simple', 'nom': nd}, c, ['nominator_matrix']))
+    out.append(mk_case({'vt': 'simple', 'nom': {'k': 'basic', 'blank': True, 'default': True}}, Cd('blank', 2), ['default_nominator']))
+    out.append(mk_case({'vt': 'approval', 'count': ['b:1', 'f:2'], 'nom': basic}, {'f': [S(0), S(1)]}, ['bound_types']))
+    out.append(mk_case({'vt': 'approval', 'count': ['b:0', 'D:0'], 'nom': basic}, {'f': []}, ['bound_types']))
+    out.append(mk_case({'vt': 'approval', 'count': ['-3', 'F:-1'], 'nom': basic}, {'f': []}, ['bound_types']))
+    out.append(mk_case({'vt': 'approval', 'count': ['f:' + num_str(Fraction(1.4)), 'f:' + num_str(Fraction(2.4))], 'nom': basic},
+                       {'f': [S(0), S(1)]}, ['bound_types']))
+    out.append(mk_case({'vt': 'ranked', 'total': ['D:2', 'F:3'], 'rank': {'by': [[0, ['9', '9']], [1, ['b:1', 'f:1']], [7, ['5', '5']]]}, 'nom': basic},
+                       {'t': [S(0), {'f': [S(1), S(2), S(3)]}]}, ['bound_types', 'rank_dict']))
+    out.append(mk_case({'vt': 'range', 'n': [None, None], 'sum': {'by': [[0, ['1', '1']], [2, ['f:' + num_str(Fraction(0.75)), 'f:' + num_str(Fraction(2.4))]], [9, [None, '0']]]},
+                        'range': ['f:' + num_str(Fraction(-0.5)), 'D:3/2'], 'nom': basic},
+                       {'f': [{'t': [S(0), N(Fraction(1, 4), f=True)]}, {'t': [S(1), N(Fraction(1, 2), f=True)]}]}, ['bound_types', 'sum_dict']))
+    out.append(mk_case({'vt': 'enum', 'n': ['b:1', None], 'sum': {'all': [None, None]}, 'nom': basic, 'levels': [N(0), N(1)]},
+                       {'f': [{'t': [S(0), N(1, b=True)]}, {'t': [S(1), N(0, F=True)]}, {'t': [S(2), N(0, D=True)]}]}, ['bound_types']))
+    # the same object twice vs two equal-looking objects; objects with an empty name; one-member / nested coalitions
+    out.append(mk_case({'vt': 'ranked', 'total': [None, None], 'rank': None, 'nom': basic},
+                       {'t': [Cd('person_party', 0), Cd('person_party', 3), Cd('party', 0), Cd('party', 3)]}, ['equal_looking_objects']))
+    out.append(mk_case({'vt': 'ranked', 'total': [None, None], 'rank': None, 'nom': basic},
+                       {'t': [Cd('person_party', 0), Cd('party', 0), Cd('person_party', 0)]}, ['same_object_twice', 'duplicate']))
+    out.append(mk_case({'vt': 'approval', 'count': ['5', '5'], 'nom': {'k': 'party', 'coal': True, 'blank': True}},
+                       {'f': [Cd('party', 2), Cd('coalition', 1), Cd('coalition', 2), Cd('coalition', 4), Cd('blank', 2)]}, ['object_variants']))
+    out.append(mk_case({'vt': 'approval', 'count': [None, None], 'nom': {'k': 'person', 'indep': False, 'blank': True}},
+                       {'f': [Cd('person_party', 1), Cd('person_party', 2), Cd('person_indep', 1)]}, ['object_variants']))
+    out.append(mk_case({'vt': 'ranked', 'total': [None, None], 'rank': None, 'nom': basic},
+                       {'t': [S(5), Cd('person_party', 0), Cd('party', 1)]}, ['name_clash']))
+    # unhashable values at every position a validator can meet them
+    for vtv in ({'vt': 'simple', 'nom': basic}, {'vt': 'approval', 'count': [None, None], 'nom': basic},
+                {'vt': 'ranked', 'total': [None, None], 'rank': None, 'nom': basic},
+                {'vt': 'enum', 'n': [None, None], 'sum': {'all': [None, None]}, 'nom': basic, 'levels': [N(1)]},
+                {'vt': 'range', 'n': [None, None], 'sum': {'all': ['0', '9']}, 'range': ['0', '9'], 'nom': basic}):
+        for bad in ({'l': [S(0)]}, {'m': [S(0), S(1)]}, {'d': [[S(0)], [N(1)]]}, {'t': [{'l': [S(0)]}]}, {'l': [{'t': [S(0), N(1)]}]},
+                    {'m': [{'t': [S(0), N(1)]}]}, {'t': [S(0), {'m': [S(1)]}, {'d': [[S(2)], [N(1)]]}]},
+                    {'t': [{'t': [S(0), {'l': []}]}, S(1)]}):
+            out.append(mk_case(vtv, bad, ['unhashable_positions']))
+    # ranked shapes
+    out.append(mk_case({'vt': 'ranked', 'total': ['5', '5'], 'rank': {'all': [None, '4']}, 'nom': basic},
+                       {'t': [{'f': [S(0), S(1), S(2), S(3)]}, S(5)]}, ['shared_rank']))
+    out.append(mk_case({'vt': 'ranked', 'total': [None, None], 'rank': {'all': ['0', '2']}, 'nom': basic},
+                       {'t': [S(0), {'f': []}, S(1)]}, ['empty_shared_rank']))
+    for wrong in ({'l': [S(1), S(2)]}, {'m': [S(1), S(2)]}, {'t': [S(1), S(2)]}, {'d': [[S(1)], [S(2)]]}):
+        out.append(mk_case({'vt': 'ranked', 'total': [None, None], 'rank': {'all': ['1', '2']}, 'nom': basic},
+                           {'t': [S(0), wrong]}, ['rank_wrong_container']))
+    # score ballots naming a candidate twice: identical pair, equal score of another type, different score
+    rv = {'vt': 'range', 'n': ['1', '1'], 'sum': {'all': [None, None]}, 'range': [None, None], 'nom': basic}
+    out.append(mk_case(rv, {'f': [{'t': [S(0), N(1)]}, {'t': [S(0), N(1)]}]}, ['score_dup']))
+    out.append(mk_case(rv, {'f': [{'t': [S(0), N(1)]}, {'t': [S(0), N(1, F=True)]}]}, ['score_dup']))
+    out.append(mk_case(rv, {'f': [{'t': [S(0), N(1)]}, {'t': [S(0), N(2)]}]}, ['score_dup', 'duplicate']))
+    out.append(mk_case(dict(rv, n=[None, None]), {'f': [{'t': [S(0), N(-1)]}, {'t': [S(1), N(-2)]}, {'t': [S(2), N(5)]}, {'t': [S(3), N(5 + 2 ** 61 - 1)]}]},
+                       ['hash_alike_scores']))
+    # one validator object, several ballots: larger then smaller, after a rejection, after a differently configured one
+    out.append({'op': 'validate_seq', 'val': {'vt': 'ranked', 'total': [None, None], 'rank': {'by': [[2, ['2', '2']]]}, 'nom': basic},
+                'votes': [{'t': [S(0), {'f': [S(1), S(2)]}, S(3), S(4)]}, {'t': [S(0), S(1)]}, {'l': [S(0)]}, {'t': [S(0)]},
+                          {'t': [S(0), {'f': [S(1), S(2)]}, S(3), S(4)]}],
+                'first': {'vt': 'ranked', 'total': ['9', '9'], 'rank': {'all': ['3', '3']}, 'nom': {'k': 'party', 'coal': False, 'blank': False}},
+                '_tags': ['other_validator_first']})
+    out.append({'op': 'validate_seq', 'val': {'vt': 'range', 'n': [None, None], 'sum': {'by': [[1, ['2', '2']]]}, 'range': ['0', '5'], 'nom': basic,
+                                              'via': 'plain_dicts'},
+                'votes': [{'f': [{'t': [S(0), N(2)]}]}, {'f': [{'t': [S(0), N(2)]}, {'t': [S(1), N(5)]}]}, {'f': [{'t': [S(0), S(6)]}]},
+                          {'f': [{'t': [S(0), N(3)]}]}, {'f': [{'t': [S(0), N(2)]}]}], '_tags': []})
+    # the filter on a dictionary mixing every kind of ballot, with counts of every type
+    out.append({'op': 'eliminate', 'val': {'vt': 'approval', 'count': ['1', '2'], 'nom': basic},
+                'votes': [[S(0), '1'], [{'f': [S(0)]}, 'D:5/2'], [{'t': [S(0), S(1)]}, '0'], [{'f': [{'t': [S(0), N(1)]}]}, str(10 ** 400)],
+                          [{'f': [S(0), S(1), S(2)]}, 'F:4'], [{'f': [Cd('person_party', 0), Cd('person_party', 3)]}, str(2 ** 53 + 1)],
+                          [None, '3'], [N(1), '-1'], [{'t': []}, 'b:1']],
+                '_tags': ['elim_mixed_kinds']})
     # eliminator: all kept / some removed / escaping errors
     val = {'vt': 'ranked', 'total': ['1', '3'], 'rank': None, 'nom': basic}
     out.append({'op': 'eliminate', 'val': val, 'votes': [[{'t': [S(0)]}, '3'], [{'t': [S(0), S(1)]}, '5/2']], '_tags': ['elim_all_kept']})
@@ -1144,18 +1298,99 @@ def gen_eliminate(rng, tags):
                               for it in vote['f']]}
         if not hashable_enc(vote):
             continue
-        cnt = rng.choice([1, 2, 3, 5, 10, Fraction(7, 2), 10 ** 20])
-        votes.append([vote, num_str(Fraction(cnt))])
+        votes.append([vote, rng.choice(COUNTS)])
+    if rng.random() < 0.3:
+        # ballots of the other vote types in the same dictionary (all of them hashable values)
+        tags = tags + ['elim_mixed_kinds']
+        for vt2 in rng.sample(['simple', 'approval', 'ranked', 'enum', 'range'], 3):
+            _, vote = _gen_vt(rng, [], vt2, True, val['nom'])
+            if hashable_enc(vote):
+                votes.insert(rng.randint(0, len(votes)), [vote, rng.choice(COUNTS)])
     if not votes:
         votes = [[S(0), '1']]
     return {'op': 'eliminate', 'val': val, 'votes': votes, '_tags': ['op:eliminate'] + tags}
 
 
-DEC_SCORES = [Fraction(1, 10), Fraction(1, 5), Fraction(3, 10), Fraction(7, 10), Fraction(11, 10), Fraction(2675, 1000),
+# vote counts of every exact type and magnitude (the filter must hand them on untouched)
+COUNTS = ['1', '2', '3', '5', '10', '7/2', str(10 ** 20), '0', 'F:0', 'D:0', 'D:5/2', 'D:1234567/10000000', 'F:4',
+          str(2 ** 53 + 1), str(10 ** 400), '-1', 'b:1']
+
+
+def gen_seq(rng):
+    """one validator object validating a sequence of ballots (its checker stores are defaultdicts that grow),
+    optionally after a differently configured validator of the same class was used"""
+    vt = rng.choice(['approval', 'ranked', 'ranked', 'enum', 'range', 'simple'])
+    tags = []
+    val, first = _gen_vt(rng, tags, vt, False)
+    if rng.random() < 0.5:
+        val = _loosen(rng, val)
+    votes = [first]
+    for _ in range(rng.randint(2, 7)):
+        r = rng.random()
+        if r < 0.6:
+            _, v = _gen_vt(rng, [], vt, False, val['nom'])
+        elif r < 0.75:
+            v = rng.choice(votes)                      # the same ballot again
+        elif r < 0.9:
+            v = gen_obj(rng)
+        else:
+            _, v = _gen_vt(rng, [], rng.choice(['approval', 'ranked', 'range']), False, val['nom'])
+        votes.append(v)
+    if vt == 'enum':
+        votes = [({'f': [{'t': [it['t'][0], rng.choice(val['levels'])]} if (it is not None and 't' in it and len(it['t']) == 2
+                                                                             and rng.random() < 0.8) else it for it in v['f']]}
+                  if (v is not None and 'f' in v and val['levels']) else v) for v in votes]
+    case = {'op': 'validate_seq', 'val': with_via(rng, val, tags), 'votes': votes, '_tags': tags}
+    if rng.random() < 0.4:
+        other, _ = _gen_vt(rng, [], vt, False)
+        case['first'] = other
+        case['_tags'].append('other_validator_first')
+    return case
+
+
+def gen_long(rng):
+    """ballots of 50 and more choices, valid or with a single defect far from the start"""
+    vt = rng.choice(['approval', 'ranked', 'enum', 'range'])
+    nom = {'k': 'basic', 'blank': True}
+    n = rng.randint(50, 64)
+    cands = [S(i) for i in rng.sample(range(12, 140), n - 4)] + [Cd('person_party', 0), Cd('party', 3), S(4), Cd('blank', 2)]
+    rng.shuffle(cands)
+    tags = ['long_ballot']
+    defect = rng.choice(['none', 'none', 'dup', 'bad', 'count'])
+    cb = [str(n), str(n)] if defect != 'count' else rng.choice([[str(n + 1), None], [None, str(n - 1)]])
+    if vt == 'approval':
+        xs = list(cands)
+        if defect == 'bad':
+            xs[-1] = N(3)
+        return mk_case({'vt': vt, 'count': cb, 'nom': nom}, {'f': xs}, tags)
+    if vt == 'ranked':
+        ranks = list(cands[:-6]) + [{'f': cands[-6:-3]}, {'f': cands[-3:]}]
+        if defect == 'dup':
+            ranks[-3] = ranks[2]
+        if defect == 'bad':
+            ranks[-4] = {'l': [S(0)]}
+        return mk_case({'vt': vt, 'total': cb, 'rank': {'by': [[len(ranks) - 1, ['3', '3']], [len(ranks), [None, '3']], [70, ['9', '9']]]},
+                        'nom': nom}, {'t': ranks}, tags)
+    scores = [N(rng.randint(0, 3)) for _ in cands]
+    total = sum(Fraction(x['n']) for x in scores)
+    items = [{'t': [c, x]} for c, x in zip(cands, scores)]
+    if defect == 'dup':
+        items.append({'t': [cands[5], N(9)]})
+    if defect == 'bad':
+        items[-1] = {'t': [N(1), N(1)]}
+    val = {'vt': vt, 'n': cb if defect != 'dup' else [None, None], 'sum': {'by': [[n, [str(total), str(total)]], [0, ['1', '1']]]}, 'nom': nom}
+    if vt == 'enum':
+        val['levels'] = [N(0), N(1), N(2), N(3), N(9)]
+    else:
+        val['range'] = ['0', '9']
+    return mk_case(val, {'f': items}, tags)
+
+
+DEC_SCORES = [Fraction(0), Fraction(1234567, 10 ** 7), Fraction(1, 10 ** 7), Fraction(1, 10), Fraction(1, 5), Fraction(3, 10), Fraction(7, 10), Fraction(11, 10), Fraction(2675, 1000),
               Fraction(1, 100), Fraction(-1, 10), Fraction(33, 100), Fraction(1, 8)]
-FRAC_SCORES = [Fraction(1, 10), Fraction(1, 5), Fraction(1, 3), Fraction(2, 7), Fraction(3, 10), Fraction(1, 6), Fraction(-1, 3),
+FRAC_SCORES = [Fraction(0), Fraction(1, 10), Fraction(1, 5), Fraction(1, 3), Fraction(2, 7), Fraction(3, 10), Fraction(1, 6), Fraction(-1, 3),
                Fraction(5, 9), Fraction(1, 49), Fraction(7, 10)]
-BIG_SCORES = [2 ** 53, 2 ** 53 + 1, 1, 1, 2, 2 ** 60 + 1, 2 ** 53 - 1, 3, 10 ** 17 + 1, -(2 ** 53)]
+BIG_SCORES = [5, 5 + 2 ** 61 - 1, -1, -2, 2 ** 53, 2 ** 53 + 1, 1, 1, 2, 2 ** 60 + 1, 2 ** 53 - 1, 3, 10 ** 17 + 1, -(2 ** 53)]
 
 
 def gen_exact_sum(rng, eliminate=False):
@@ -1249,11 +1484,17 @@ def _gen(rng, tier):
         yield gen_exact_sum(rng)
     for _ in range(150 if tier == 'quick' else 3000):
         yield gen_exact_sum(rng, eliminate=True)
+    for _ in range(700 if tier == 'quick' else 10000):
+        yield gen_seq(rng)
+    for _ in range(120 if tier == 'quick' else 1500):
+        yield gen_long(rng)
     n_main = 9000 if tier == 'quick' else 60000
     for _ in range(n_main):
         tags = []
         val, vote = gen_any(rng, tags)
         val = with_via(rng, val, tags)
+        if rng.random() < 0.3:
+            val = retype_bounds(rng, val)
         yield mk_case(val, vote, tags)
     for _ in range(2500 if tier == 'quick' else 15000):
         vt = rng.choice(['simple', 'approval', 'ranked', 'enum', 'range'])
@@ -1338,6 +1579,162 @@ def exhaustive():
                        '_tags': ['exhaustive', 'exhaustive_eliminate']}
 
 
+def walk(e, depth=0):
+    """all sub-encodings with their depth"""
+    yield e, depth
+    if e is None:
+        return
+    for k in ('t', 'l', 'f', 'm'):
+        if k in e:
+            for x in e[k]:
+                yield from walk(x, depth + 1)
+    if 'd' in e:
+        for x in e['d'][0] + e['d'][1]:
+            yield from walk(x, depth + 1)
+
+
+def unhashable_top(e):
+    return e is not None and ('l' in e or 'm' in e or 'd' in e)
+
+
+def structure_tags(vt, e):
+    """what a ballot exercises, read off its encoding"""
+    tags = set()
+    subs = list(walk(e))
+    ids = {}
+    for x, d in subs:
+        if x is None:
+            continue
+        if 'c' in x:
+            ids.setdefault(x['c'], set()).add(x['id'])
+            if x['id'] == 2:
+                tags.add('falsy_name_object')
+            if x['c'] == 'coalition' and x['id'] == 1:
+                tags.add('coalition_one_member')
+            if x['c'] == 'coalition' and x['id'] in (2, 4):
+                tags.add('coalition_nested_or_empty')
+            if x['c'] == 'person_party' and x['id'] == 1:
+                tags.add('str_party_candidacy')
+            if x['c'] == 'blank':
+                tags.add('blank')
+            if x['c'] == 'coalition':
+                tags.add('coalition')
+        if 's' in x and x['s'] == 4:
+            tags.add('empty_name_candidate')
+        if 'n' in x:
+            f = Fraction(x['n'])
+            if x.get('D') and f.denominator > 10 ** 6:
+                tags.add('score_decimal_7plus')
+            if f == 0 and x.get('F'):
+                tags.add('score_zero_fraction')
+            if f == 0 and x.get('D'):
+                tags.add('score_zero_decimal')
+            if x.get('fl'):
+                tags.add('score_float')
+            if x.get('bo'):
+                tags.add('score_bool')
+        if unhashable_top(x):
+            tags.add('unhashable_item')
+            tags.add('unhashable_ballot' if d == 0 else 'unhashable_inner_item')
+    for k, v in ids.items():
+        if {0, 3} <= v:
+            tags.add('equal_looking_objects')
+    objs = [(x['c'], x['id']) for x, _ in subs if x is not None and 'c' in x]
+    if len(set(objs)) < len(objs):
+        tags.add('same_object_twice')
+    if any(x is not None and x.get('s') == 5 for x, _ in subs) and (
+            {0, 3} & ids.get('person_party', set()) or 1 in ids.get('party', set())):
+        tags.add('name_clash_str_object')
+    # length of the ballot
+    n = None
+    if e is not None:
+        for k in ('t', 'l', 'f', 'm'):
+            if k in e:
+                n = len(e[k])
+    if n is not None:
+        tags.add('ballot_len_0' if n == 0 else 'ballot_len_1' if n == 1 else 'ballot_len_50plus' if n >= 50 else 'ballot_len_mid')
+    if vt == 'ranked' and e is not None and 't' in e:
+        for r in e['t']:
+            if r is None:
+                continue
+            if 'f' in r:
+                m = len(members(r['f']))
+                if m >= 3:
+                    tags.add('shared_rank_3plus')
+                if m == 0:
+                    tags.add('empty_shared_rank')
+            if 'l' in r:
+                tags.add('rank_as_list')
+            if 'm' in r:
+                tags.add('rank_as_set')
+            if 't' in r:
+                tags.add('rank_as_tuple')
+            if 'd' in r:
+                tags.add('rank_as_dict')
+    if vt in ('enum', 'range') and e is not None and 'f' in e:
+        pairs = [it['t'] for it in e['f'] if it is not None and 't' in it and len(it['t']) == 2]
+        by = {}
+        for c, sc in pairs:
+            by.setdefault(ckey(c), []).append(sc)
+        for c, scs in by.items():
+            if len(scs) > 1:
+                vals = set(ckey(x) for x in scs)
+                tags.add('score_dup_equal_score' if len(vals) < len(scs) else 'score_dup_diff_score')
+        nums = [Fraction(sc['n']) for _, sc in pairs if is_num(sc)]
+        if (-1 in nums and -2 in nums) or any(a - b == 2 ** 61 - 1 for a in nums for b in nums):
+            tags.add('hash_alike_scores')
+    return tags
+
+
+def config_tags(val):
+    tags = set()
+    nom = val['nom']
+    tags.add('nomcfg:%s:%s:%s' % (nom['k'], nom.get('indep', nom.get('coal', '-')), nom['blank']))
+    if nom.get('flip'):
+        tags.add('nom_flags_flipped')
+    if nom.get('default'):
+        tags.add('default_nominator')
+    bs = []
+    for k in ('count', 'total', 'n', 'range'):
+        if k in val:
+            bs.append(val[k])
+    for k in ('rank', 'sum'):
+        bm = val.get(k)
+        if bm is not None:
+            if 'all' in bm:
+                bs.append(bm['all'])
+            else:
+                for kk, b in bm['by']:
+                    bs.append(b)
+                    if kk == 0:
+                        tags.add('dict_key_zero')
+                    if kk >= 7:
+                        tags.add('dict_key_far_beyond')
+    for b in bs:
+        for x in b:
+            if x is None:
+                continue
+            f = bfrac(x)
+            t = x[0] if x[1:2] == ':' else ''
+            if f == 0:
+                tags.add('bound_zero')
+            if f < 0:
+                tags.add('bound_negative')
+            if t == 'F' or (t == '' and f.denominator != 1):
+                tags.add('bound_fraction')
+            if t == 'D':
+                tags.add('bound_decimal')
+            if t == 'f':
+                tags.add('bound_float')
+                if f.denominator > 2 ** 20:
+                    tags.add('bound_float_nondyadic')
+            if t == 'b':
+                tags.add('bound_bool')
+        if b[0] is not None and b[1] is not None and bfrac(b[0]) > bfrac(b[1]):
+            tags.add('crossing_bounds')
+    return tags
+
+
 def generate(rng, tier):
     """tag after the fact with what the cases actually exercise (verdict of the declarative rule, configuration shape)"""
     k = 0
@@ -1349,18 +1746,26 @@ def generate(rng, tier):
         val = c['val']
         tags.append('vt:' + val['vt'])
         tags.append('nom:' + val['nom']['k'])
+        tags += sorted(config_tags(val))
         if c['op'] == 'validate':
             why = rule(val, c['vote'])
             tags.append('valid' if not why else 'invalid')
             for w in why:
                 tags.append('why:' + w)
-            s = json.dumps(c['vote'])
-            if '"blank"' in s:
-                tags.append('blank')
-            if '{"s": 4}' in s:
-                tags.append('empty_name_candidate')
-            if '"coalition"' in s:
-                tags.append('coalition')
+            tags += sorted(structure_tags(val['vt'], c['vote']))
+            bm = val.get('rank') if val['vt'] == 'ranked' else val.get('sum')
+            e = c['vote']
+            if bm is not None and 'by' in bm and e is not None and ('t' in e or 'f' in e):
+                n = len(e.get('t', e.get('f')))
+                if any(kk > n for kk, _ in bm['by']):
+                    tags.append('dict_key_beyond_ballot')
+        elif c['op'] == 'validate_seq':
+            tags.append('op:validate_seq')
+            verdicts = [bool(rule(val, v)) for v in c['votes']]
+            if any(verdicts[i] and not verdicts[i + 1] for i in range(len(verdicts) - 1)):
+                tags.append('seq_valid_after_invalid')
+            for v in c['votes']:
+                tags += sorted(structure_tags(val['vt'], v))
         else:
             if 'op:eliminate' not in tags:
                 tags.append('op:eliminate')
@@ -1369,6 +1774,8 @@ def generate(rng, tier):
                 tags.append('elim_all_kept')
             elif any(w for w in verdicts):
                 tags.append('elim_some_removed')
+            for v, _ in c['votes']:
+                tags += sorted(structure_tags(val['vt'], v))
         c['_tags'] = sorted(set(tags))
         yield c
 
@@ -1397,13 +1804,17 @@ def shrink_candidates(case):
     if case['op'] == 'shape':
         return
     val = case['val']
-    if case['op'] == 'eliminate':
+    if case['op'] in ('eliminate', 'validate_seq'):
         vs = case['votes']
         for i in range(len(vs)):
             if len(vs) > 1:
                 c = dict(case)
                 c['votes'] = vs[:i] + vs[i + 1:]
                 yield c
+        if case.get('first'):
+            c = dict(case)
+            c.pop('first')
+            yield c
     else:
         for sub in _shrink_obj(case['vote']):
             c = dict(case)
@@ -1451,9 +1862,13 @@ def describe(case):
     else:
         ctor = (f"RangeVoteValidator(range={py_bounds(val['range'])}, allowed_scorings={py_bounds(val['n'])}, "
                 f"sum_bounds={py_boundmap(val['sum'])}, nominator={noms})")
+    if nom.get('flip'):
+        ctor += ' [nominator flags set after construction]'
     if case['op'] == 'validate':
         return f"{ctor}.validate({pool.build(case['vote'])!r})"
+    if case['op'] == 'validate_seq':
+        return f"v = {ctor}; " + '; '.join(f"v.validate({pool.build(b)!r})" for b in case['votes'])
     d = {}
     for k, n in case['votes']:
-        d[pool.build(k)] = Fraction(n)
+        d[pool.build(k)] = py_num(n)
     return f"InvalidVoteEliminator({ctor}).convert({d!r})"
